@@ -901,6 +901,13 @@ def _bv_op(a, b, f, width=64):
     return mk_int(z3.BV2Int(f(z3.Int2BV(a.e, width), z3.Int2BV(b.e, width))))
 
 
+def neg(x):
+    ''' Logical negation for bool / SBool (Python's ~ on a bool is an int). '''
+    if isinstance(x, SBool):
+        return ~x
+    return not x
+
+
 def ite(c, a, b):
     ''' Symbolic if-then-else on ints (no fork). '''
     if isinstance(c, bool):
